@@ -46,7 +46,7 @@ def tla_set(xs, quote=True):
 
 
 def cfg(npairs=2, maxtime=2, maxenv=2, maxforce=1, envk=None, initk=ALL_INIT, devs=(), gen=False,
-        tail="VIEW View\nINVARIANTS NoViolation TypeOK ServedIsComplete NeverEmptyOnceRunning\nCHECK_DEADLOCK FALSE\n",
+        tail="VIEW View\nINVARIANTS NoViolation TypeOK ServedIsComplete NeverEmptyOnceRunning NeverWild\nCHECK_DEADLOCK FALSE\n",
         spec="Spec"):
     return ("SPECIFICATION %s\nCONSTANTS\n  NPairs = %d\n  MaxTime = %d\n  MaxEnv = %d\n  MaxForce = %d\n"
             "  EnvKinds = %s\n  InitKinds = %s\n  Devs = %s\n  Gen = %s\n%s") % (
@@ -240,7 +240,12 @@ def crash_report(ctx, e, behs):
     loader crashed the process - that is a statement about maddy (the ticker goroutine has no recover)"""
     msg = str(e)
     m = re.search(r"(panic: .*|fatal error: .*)", msg)
-    if not m or "github.com/foxcpp/maddy/internal/tls.(*FileLoader)" not in msg:
+    if not m or "synctest" in m.group(1) or "deadlock" in m.group(1) or "test timed out" in m.group(1):
+        return False
+    # the first goroutine listed after the panic line is the one that panicked
+    heads = [h.start() for h in re.finditer(r"^goroutine \d+ \[", msg[m.end():], re.M)]
+    first = msg[m.end():][:heads[1]] if len(heads) > 1 else msg[m.end():]
+    if "github.com/foxcpp/maddy/internal/tls.(*FileLoader)" not in first:
         return False
     ids = re.findall(r"BEGIN (\d+)", msg)
     beh = None
@@ -423,12 +428,18 @@ def run_rows(ctx, replay_obj, binary, findings):
                 raise vlib.Infra("as-is directive model (%s) does not violate the property: predicates vacuous? (%s)" % (
                     dev, ra["error"]))
         if not thorough:
-            # quick: every row with a configuration error or a non-serving mode, a seeded sample of the rest
-            cold = [row for row in rows if row["exp"]["err"] or not row["exp"]["starttls"]]
-            hot = [row for row in rows if not (row["exp"]["err"] or not row["exp"]["starttls"])]
+            # quick: the rows that vary one directive at a time and the modes without a block, a seeded sample of the rest
+            def must(row):
+                i = row["in"]
+                return i["mode"] in ("off", "bogus", "odd") or \
+                    sum(1 for k in ("protocols", "ciphers", "curves") if i[k] != ["OMIT"]) <= 1
+            keep = [row for row in rows if must(row)]
+            rest = [row for row in rows if not must(row)]
+            cold = [row for row in rest if row["exp"]["err"]]
+            hot = [row for row in rest if not row["exp"]["err"]]
             ctx.rng.shuffle(cold)
             ctx.rng.shuffle(hot)
-            rows = cold[:500] + hot[:900]
+            rows = keep + cold[:300] + hot[:900]
             rows.sort(key=lambda row: row["id"])
     by_id = {row["id"]: row for row in rows}
     items = [{"id": row["id"], "in": row["in"]} for row in rows]
@@ -456,8 +467,8 @@ def run_rows(ctx, replay_obj, binary, findings):
         def adv(o):
             o["starttls"] = True
         forged = [
-            forge(900001, lambda row, e: row["in"]["scope"] == "server" and row["in"]["mode"] == "file"
-                  and row["in"]["protocols"] == ["tls1.2"] and not e["out"]["err"], add_v0),
+            forge(900001, lambda row, e: row["in"]["scope"] == "server" and row["in"]["mode"] in ("file", "file2", "self")
+                  and row["in"]["protocols"] == ["tls1.2"] and not e["out"]["err"] and 0 not in e["out"]["vers"], add_v0),
             forge(900002, lambda row, e: row["in"]["mode"] == "off" and not e["out"]["err"], adv),
         ]
         selftest = {900001: "TLS 1.0 accepted although protocols tls1.2", 900002: "STARTTLS advertised with tls off"}
